@@ -109,6 +109,13 @@ example :
   norm_num [wolfecubicJ, wolfeBracket, wolfeSelect, junkW, Vec.axpy, Vec.dot, Vec.get, Vec.norm1,
     Scalar.abs, Scalar.zero, Scalar.ofRat, wolfeMaxIter, wolfeC1, wolfeC2]
 
+/-- non-vacuity of `wolfecubic_contract_partial`: its hypothesis `WolfeBracketed` holds e.g. on `f(x) = x²` -/
+example :
+    let o : Objective Rat := ⟨fun x => Vec.get x 0 * Vec.get x 0, fun x => [2 * Vec.get x 0], fun _ => true, false, [], []⟩
+    WolfeBracketed o [1] [-2] 1 [2] (1/2) junkW := by
+  unfold WolfeBracketed
+  norm_num [wolfeBracket, junkW, Vec.axpy, Vec.dot, Vec.get, Scalar.abs, Scalar.zero, Scalar.ofRat, wolfeMaxIter, wolfeC1, wolfeC2]
+
 /-- **dlinmin_contract.**  The modelled `dlinmin` (bracketing + Brent with derivatives, any initial bracket)
 satisfies the contract; its no-increase part needs no hypothesis on the direction at all. -/
 theorem dlinmin_contract (ax bx : Rat) : LSContract (dlinmin ax bx) := by
@@ -639,6 +646,12 @@ theorem trn_border_on_sphere (sqrt : Rat → Rat) (z d : Vec Rat) (delta : Rat) 
     field_simp; ring
   rw [this, hs']; ring
 
+/-- non-vacuity of `trn_border_on_sphere`: `z = 0`, `d = -2`, `delta = 1/2`: discriminant `1/16`, `sqrt = 1/4`, `tau = 1/4` -/
+example : Vec.normSqr (Vec.axpy [0] (TR.borderDistance (fun x => if x = 1/16 then 1/4 else 0) [0] [-2] (1/2)) [-2]) = (1/2) * (1/2 : Rat) := by
+  apply trn_border_on_sphere _ [0] [-2] (1/2) rfl
+  · norm_num [Vec.normSqr, Vec.dot, Scalar.zero, Scalar.ofRat]
+  · norm_num [Vec.normSqr, Vec.dot, Scalar.zero, Scalar.ofRat]
+
 /-- **trn_cg_interior_inside.**  Every exit of the CG–Steihaug loop other than a boundary exit returns a step strictly
 inside the trust region: the loop tests `‖step + alpha·d‖² ≥ delta²` *before* it moves.  Formally: started inside,
 `cgLoop` returns a step with `‖step‖² < delta²`, or its result is `toBorder` of a state whose step is inside
@@ -727,6 +740,14 @@ theorem lbfgs_multBInv_pos (n : Nat) (bdiag : Rat) (hb : 0 < bdiag) (hist : List
   obtain ⟨hm, hpd, hl⟩ := lbfgs_two_loop_is_matrix n bdiag hb hist hd hpos p hp
   rw [dot_eq n _ _ hp hl, hm]
   exact hpd.2 _ hne
+
+/-- non-vacuity of `lbfgs_two_loop_is_matrix` / `lbfgs_direction_descent`: one stored pair `s = (1, 0)`, `y = (2, 1)`
+(`yᵀs = 2 > 0`), `bdiag = 5/2` -/
+example : Vec.dot ([3, -1] : Vec Rat) (LSOpt.multBInv (5/2) [([1, 0], [2, 1])] (Vec.neg [3, -1])) ≤ 0 :=
+  (lbfgs_direction_descent 2 (5/2) (by norm_num) [([1, 0], [2, 1])]
+    (by intro sy h; simp only [List.mem_singleton] at h; subst h; exact ⟨rfl, rfl⟩)
+    (by intro sy h; simp only [List.mem_singleton] at h; subst h; norm_num [Vec.dot, Scalar.zero, Scalar.ofRat])
+    [3, -1] rfl).1
 
 /-- what `LBFGS::updateHist` keeps true of `(bdiag, history)` -/
 def HistOK (n : Nat) (bdiag : Rat) (hist : List (Vec Rat × Vec Rat)) : Prop :=
